@@ -3,10 +3,12 @@ package props
 import (
 	"bytes"
 	"context"
+	"errors"
 	"fmt"
 	"slices"
 	"strings"
 	"testing"
+	"time"
 
 	"pgregory.net/rapid"
 
@@ -463,5 +465,142 @@ func TestC06(t *testing.T) {
 			}
 		}
 		rec.Case(strings.Join(kinds, ","), sawHRR && sawCHAfterHRR, cl, func() any { return map[string]any{"ops": ops} })
+	})
+}
+
+// TestC06Blocked: the client-to-backend reader is already blocked inside
+// Conn.Read (as a relay's copy loop is) when the backend's answer to the first
+// hello is written; the client's next records arrive afterwards. Whether the next
+// ClientHello is a retry depends on what was written, not on when Read was entered.
+func TestC06Blocked(t *testing.T) {
+	rec := ev.Get("C06")
+	rapid.Check(t, func(t *rapid.T) {
+		sc := drawSealed(t, false)
+		tp := sc.Tuple
+		tr := wire.New(sc.Record, nil)
+		c, err := newConn(context.Background(), tr, echKeys(sc.Key))
+		if err != nil || !c.ECHAccepted() {
+			ev.Violation(t, "C06", sc.replay(), "first hello not accepted: %v", err)
+		}
+		if got, e := readOneRecord(c); e != nil || !sameRecord(got, hello.Record(22, 0x0303, sc.WantInner)) {
+			ev.Violation(t, "C06", sc.replay(), "first hello not forwarded as its inner hello: %v", e)
+		}
+		answer := rapid.SampledFrom([]string{"hrr", "hrr", "hrr", "server_hello"}).Draw(t, "backend_answer")
+		second := rapid.SampledFrom([]string{"ch_good", "ch_good", "ch_plain"}).Draw(t, "second_hello")
+		ccs := rapid.Bool().Draw(t, "ccs_before_hello2")
+		in2 := tp.Inner.Clone()
+		in2.Random = hello.GenBytes(t, "random2", 32)
+		out2 := tp.Outer.Clone()
+		out2.Random = hello.GenBytes(t, "orandom2", 32)
+		var hello2, wantInner2 []byte
+		if second == "ch_good" {
+			msg2, e := sc.Sealer.SealOuter(out2, hello.Encode(hello.Compress(in2, tp.RunStart, tp.RunLen), make([]byte, tp.Pad)), false)
+			if e != nil {
+				t.Fatalf("harness: %v", e)
+			}
+			hello2 = hello.Record(22, 0x0303, msg2)
+			wantInner2 = hello.Record(22, 0x0303, hello.ExpectedInner(in2, out2).Message())
+		} else {
+			i := out2.Find(hello.ExtECH)
+			out2.Exts = append(out2.Exts[:i], out2.Exts[i+1:]...)
+			hello2 = hello.Record(22, 0x0303, out2.Message())
+		}
+		var bw []byte
+		if answer == "hrr" {
+			bw = hrrRecord(tp.Outer.SessionID)
+		} else {
+			rnd := hello.GenBytes(t, "sh_random", 32)
+			if bytes.Equal(rnd, hrrRandom) {
+				rnd[0] ^= 1
+			}
+			bw = hello.Record(22, 0x0303, serverHelloMsg(rnd, tp.Outer.SessionID, []hello.Ext{{Type: 43, Data: []byte{3, 4}}}))
+		}
+		pieces := rapid.IntRange(1, 3).Draw(t, "answer_pieces")
+		var cutsW []int
+		for i := 1; i < pieces; i++ {
+			cutsW = append(cutsW, 1+uniform(t, "wcut", len(bw)-1))
+		}
+		slices.Sort(cutsW)
+		rp := map[string]any{"keys": keysReplay([]*hello.Key{sc.Key}), "client_stream": hx(sc.Record), "backend_answer": answer, "backend_bytes": hx(bw), "second_hello": second, "second_record": hx(hello2), "ccs_before": ccs}
+		type rres struct {
+			recs [][]byte
+			err  error
+		}
+		nwant := 1
+		if ccs {
+			nwant = 2
+		}
+		done := make(chan rres, 1)
+		go func() {
+			var r rres
+			for len(r.recs) < nwant {
+				var got []byte
+				e := guard(func() error { var e error; got, e = readOneRecord(c); return e })
+				if e != nil {
+					r.err = e
+					break
+				}
+				r.recs = append(r.recs, got)
+			}
+			done <- r
+		}()
+		// wait until the reader is parked inside the transport's Read
+		for i := 0; tr.Parked() == 0; i++ {
+			if i > 200000 {
+				t.Fatalf("harness: reader never blocked")
+			}
+			time.Sleep(20 * time.Microsecond)
+		}
+		prev := 0
+		for _, k := range append(cutsW, len(bw)) {
+			if k <= prev {
+				continue
+			}
+			if n, e := c.Write(bw[prev:k]); e != nil || n != k-prev {
+				ev.Violation(t, "C06", rp, "Write of the backend's answer returned (%d, %v)", n, e)
+			}
+			prev = k
+		}
+		if ccs {
+			tr.Feed(hello.Record(20, 0x0303, []byte{1}))
+		}
+		tr.Feed(hello2)
+		var r rres
+		select {
+		case r = <-done:
+		case <-time.After(30 * time.Second):
+			t.Fatalf("harness: reader did not return within 30 s")
+		}
+		if isPanic(r.err) {
+			ev.Violation(t, "C06", rp, "panic in Read: %v", r.err)
+		}
+		if ccs && (len(r.recs) < 1 || !bytes.Equal(r.recs[0], hello.Record(20, 0x0303, []byte{1}))) {
+			ev.Violation(t, "C06", rp, "the change_cipher_spec before the second hello was not forwarded unchanged (err=%v)", r.err)
+		}
+		w, _ := tr.Snapshot()
+		switch {
+		case answer == "hrr" && second == "ch_good":
+			if r.err != nil || len(r.recs) != nwant || !sameRecord(r.recs[nwant-1], wantInner2) {
+				ev.Violation(t, "C06", map[string]any{"case": rp, "want": hx(wantInner2), "got": fmt.Sprintf("%x", r.recs)}, "reader blocked before the HelloRetryRequest was written: the retried hello was not replaced by its reconstructed inner hello (err=%v)", r.err)
+			}
+			if !bytes.Equal(w, bw) {
+				ev.Violation(t, "C06", rp, "client received %x, backend wrote %x", w, bw)
+			}
+		case answer == "hrr":
+			if r.err == nil || !errors.Is(r.err, alertClass["missing_extension"].err) {
+				ev.Violation(t, "C06", rp, "reader blocked before the HelloRetryRequest was written: a second hello without ECH was not aborted with missing_extension (err=%v, %d records forwarded)", r.err, len(r.recs))
+			}
+			wantW := append(append([]byte{}, bw...), 0x15, 3, 3, 0, 2, 2, byte(alertClass["missing_extension"].desc))
+			if len(w) != len(wantW) || !bytes.Equal(w[:len(bw)], bw) || !bytes.Equal(w[len(bw)+3:], wantW[len(bw)+3:]) || !tr.Closed() {
+				ev.Violation(t, "C06", rp, "client did not receive the HelloRetryRequest followed by one fatal missing_extension alert and end of stream (got %x, closed=%v)", w, tr.Closed())
+			}
+		default:
+			if r.err != nil || len(r.recs) != nwant || !bytes.Equal(r.recs[nwant-1], hello2) {
+				ev.Violation(t, "C06", rp, "no HelloRetryRequest was written: the second hello must be forwarded unchanged (err=%v)", r.err)
+			}
+		}
+		rec.Case(fmt.Sprintf("blocked|%s|%s|%v|%d", answer, second, ccs, pieces), answer == "hrr", []string{"reader_blocked_before_answer", "blocked:" + answer + ":" + second}, func() any {
+			return map[string]any{"kind": "reader_blocked_before_answer", "answer": answer, "second": second, "ccs": ccs, "pieces": pieces}
+		})
 	})
 }
